@@ -278,6 +278,43 @@ void add_program_cases(std::vector<ForkCase>& cases, Rng& rng, bool thorough)
 }
 } // namespace
 
+// Every number the printer can be asked to write: positions and nesting levels (size_t) and file / line / column (32 bit) at
+// every digit-count boundary (9, 10, 99, 100, ..., 10^k - 1, 10^k), every power of two and its neighbours, and the maxima.
+// Each must come out as its decimal rendering, nothing else (no control byte, no other base, no padding).
+static void number_cases(std::vector<ForkCase>& cases)
+{
+   std::vector<unsigned long long> vals { 0, 1, 7, 8, 9 };
+   for (unsigned long long p = 10; ; p *= 10) { vals.push_back(p - 1); vals.push_back(p); vals.push_back(p + 1); if (p > ~0ull / 10) break; }
+   for (int b = 3; b < 64; ++b) { vals.push_back((1ull << b) - 1); vals.push_back(1ull << b); }
+   vals.push_back(~0ull); vals.push_back(~0ull - 1); vals.push_back(4000000000ull); vals.push_back(4294967295ull); vals.push_back(4294967296ull);
+   ForkCase fc; fc.label = "numbers:every-width";
+   fc.run = [vals](CaseOut& out) {
+      impl::Lexicon lex; const Lexicon& L = lex;
+      for (auto v : vals) {
+         {  std::ostringstream os; Printer pp(L, os);
+            pp << Decl_position { std::size_t(v) } << Mapping_level { std::size_t(v) };
+            const std::string want = std::to_string(std::size_t(v)) + std::to_string(std::size_t(v));
+            out.count("numbers_checked", 2);
+            if (os.str() != want) out.viol("number-not-rendered-in-decimal:position-or-level", "Decl_position / Mapping_level " + std::to_string(v) + " were written as '" + CaseOut::clean(os.str().substr(0, 50)) + "' (" + std::to_string(os.str().size()) + " bytes)"); }
+         if (v <= 0xffffffffull) {
+            for (int which = 0; which < 3; ++which) {
+               auto* brk = lex.make_break();
+               brk->src_locus.file = File_index { which == 0 ? std::uint32_t(v) : 7 }; brk->src_locus.line = Line_number { which == 1 ? std::uint32_t(v) : 5 }; brk->src_locus.column = Column_number { which == 2 ? std::uint32_t(v) : 3 };
+               if (brk->src_locus.file == File_index { 0 } || brk->src_locus.line == Line_number { 0 }) continue;       // 0 means "no location"
+               std::ostringstream os; Printer pp(L, os); pp.print_locations = true;
+               pp << xpr_stmt(*brk);
+               std::string want = "F" + std::to_string(std::uint32_t(brk->src_locus.file)) + ":" + std::to_string(std::uint32_t(brk->src_locus.line));
+               if (std::uint32_t(brk->src_locus.column) != 0) want += ":" + std::to_string(std::uint32_t(brk->src_locus.column));
+               out.count("numbers_checked");
+               if (os.str().rfind(want + " ", 0) != 0) out.viol("number-not-rendered-in-decimal:location", "a location with " + std::string(which == 0 ? "file" : which == 1 ? "line" : "column") + " " + std::to_string(v) + " was written as '" + CaseOut::clean(os.str().substr(0, 50)) + "', expected to start with '" + want + " '");
+            }
+         }
+      }
+      out.eval(0x6e756d62);
+   };
+   cases.push_back(std::move(fc));
+}
+
 static void body(Ctx& C)
 {
    C.rule("a case = one item offered to the printer: every node of the all-factories sweep (and of what those nodes hand out) as expression, statement, declaration "
@@ -296,10 +333,11 @@ static void body(Ctx& C)
    add_program_cases(cases, rng, C.thorough);
    std::vector<ForkCase> mine;
    for (std::size_t i = 0; i < cases.size(); ++i) if (int(i % std::size_t(C.workers)) == C.worker) mine.push_back(std::move(cases[i]));
+   number_cases(mine);                                     // every worker: cheap
    C.count("cases", (long long)mine.size());
    auto st = run_cases_forked(C, mine, 120);
    (void)st;
-   for (auto k : { "outcome:completed", "outcome:refused", "probes", "literal_spellings", "delimiter_cases", "operator_name_cases", "nesting_cases", "generated_programs", "located_statements_printed", "cases_completed" }) C.need(k);
+   for (auto k : { "outcome:completed", "outcome:refused", "probes", "literal_spellings", "delimiter_cases", "operator_name_cases", "nesting_cases", "generated_programs", "located_statements_printed", "cases_completed", "numbers_checked" }) C.need(k);
    C.sample(J().s("case", "expr:Demotion").s("what", "a sweep node of kind Demotion offered as xpr_expr; outcome must be completed or refused(logic_error)").str());
    C.sample(J().s("case", "literal:single-byte 0x01").s("what", "literal whose spelling is byte 1, then 255/64/F7001:1234:89 through the same printer").str());
    C.sample(J().s("case", "nesting:depth-200").s("what", "200 nested if/while/switch/for/labeled/try constructs printed as one statement; indentation restored").str());
